@@ -58,6 +58,12 @@ func (s *SubscriptionService) CreateSubscription(sc *uasc.SecureChannel, r ua.Re
 		return nil, err
 	}
 
+	// a subscription belongs to a session: its goroutine reads the session's publish queue
+	session := s.srv.Session(req.RequestHeader)
+	if session == nil {
+		return nil, ua.StatusBadSessionIDInvalid
+	}
+
 	s.Mu.Lock()
 	defer s.Mu.Unlock()
 
@@ -73,7 +79,7 @@ func (s *SubscriptionService) CreateSubscription(sc *uasc.SecureChannel, r ua.Re
 
 	sub := NewSubscription()
 	sub.srv = s
-	sub.Session = s.srv.Session(r.Header())
+	sub.Session = session
 	sub.Channel = sc
 	sub.ID = newsubid
 	sub.RevisedPublishingInterval = req.RequestedPublishingInterval
@@ -219,6 +225,9 @@ func (s *SubscriptionService) DeleteSubscriptions(sc *uasc.SecureChannel, r ua.R
 		return nil, err
 	}
 	session := s.srv.Session(req.Header())
+	if session == nil {
+		return nil, ua.StatusBadSessionIDInvalid
+	}
 
 	s.Mu.Lock()
 	defer s.Mu.Unlock()
